@@ -19,7 +19,7 @@ package beacon
 
 //@ iface (github.com/drand/drand/v2/internal/chain.Store).Put(s, ctx, b) (err)
 //@   trusted abstract map contract of a store layer (the concrete back-ends are verified against the same shape under C18): a successful Put records b under b.Round, other stored rounds keep their value, nothing new appears, a failed Put changes nothing; the only beacon field a layer may change is PreviousSig (cleared by schemeStore on unchained schemes)
-//@   modifies stored(s), sigOf(s), prevOf(s), b.PreviousSig
+//@   modifies stored(s), sigOf(s), prevOf(s), cannotRead(s), b.PreviousSig
 //@   ensures err == nil ==> stored(s, b.Round) && sigOf(s, b.Round) == b.Signature && prevOf(s, b.Round) == b.PreviousSig
 //@   ensures forall r int :: r != b.Round && stored(s, r) ==> old(stored(s, r)) && sigOf(s, r) == old(sigOf(s, r)) && prevOf(s, r) == old(prevOf(s, r))
 //@   ensures err != nil ==> (forall r int :: stored(s, r) == old(stored(s, r)) && sigOf(s, r) == old(sigOf(s, r)) && prevOf(s, r) == old(prevOf(s, r)))
@@ -33,10 +33,14 @@ package beacon
 //@   ensures err == nil ==> b != nil && stored(s, b.Round) && sigOf(s, b.Round) == b.Signature && prevOf(s, b.Round) == b.PreviousSig
 //@   ensures err == nil ==> (forall r int :: stored(s, r) ==> r <= b.Round)
 
+// cannotRead(s, r): reading round r back from store s fails (missing, undecodable, ...). Assumption: reading a round twice
+// without a Put in between gives the same outcome.
+//@ ghostfield cannotRead(ref, int) bool
 //@ iface (github.com/drand/drand/v2/internal/chain.Store).Get(s, ctx, round) (b, err)
 //@   trusted abstract map contract of a store layer (the concrete back-ends are verified against the same shape under C18): a successful Get returns the stored beacon of exactly the requested round
 //@   modifies nothing
 //@   ensures err == nil ==> b != nil && b.Round == round && stored(s, round) && sigOf(s, round) == b.Signature && prevOf(s, round) == b.PreviousSig
+//@   ensures (err != nil) == cannotRead(s, round)
 
 // ---- C02: append-only, gap-free ------------------------------------------------
 
@@ -105,7 +109,7 @@ package beacon
 
 //@ func (*SyncManager).tryNode(s, global, from, upTo, peer) (ok)
 //@   props C01 C10
-//@   ensures [C10:sync-configuration-is-left-alone] s.info == old(s.info) && s.scheme == old(s.scheme) && s.info.Period == old(s.info.Period) && s.info.GenesisTime == old(s.info.GenesisTime)
+//@   ensures [C10:sync-configuration-is-left-alone] s.info == old(s.info) && s.scheme == old(s.scheme) && s.info.Period == old(s.info.Period) && s.info.GenesisTime == old(s.info.GenesisTime) && s.log == old(s.log)
 //@   requires s.info != nil && s.scheme != nil && common.validPeriod(s.info.Period) && common.validGenesis(s.info.GenesisTime)
 //@   call Put#0: assert [C01,C10:resync-stores-only-verified-beacons] arg2 != nil && crypto.validSig(s.info.PublicKey, crypto.digestOf(s.scheme, arg2.Round, arg2.PreviousSig), arg2.Signature)
 //@   call Put#1: assert [C01,C10:sync-stores-only-verified-beacons] arg2 != nil && crypto.validSig(s.info.PublicKey, crypto.digestOf(s.scheme, arg2.Round, arg2.PreviousSig), arg2.Signature)
@@ -416,5 +420,45 @@ package beacon
 //@ func (*SyncManager).Sync(s, ctx, request) (err)
 //@   props C10
 //@   requires s.log != nil && s.info != nil && s.scheme != nil && common.validPeriod(s.info.Period) && common.validGenesis(s.info.GenesisTime)
-//@   loop 0: invariant [C10:peer-scan-position] -1 <= rangeindex0 && rangeindex0 <= 9223372036854775806 && s.info != nil && s.scheme != nil && common.validPeriod(s.info.Period) && common.validGenesis(s.info.GenesisTime)
+//@   loop 0: invariant [C10:peer-scan-position] -1 <= rangeindex0 && rangeindex0 <= 9223372036854775806 && s.log != nil && s.info != nil && s.scheme != nil && common.validPeriod(s.info.Period) && common.validGenesis(s.info.GenesisTime)
 //@   ensures [C10:a-sync-with-no-peer-left-to-try-reports-ErrFailedAll] len(request.nodes) == 0 ==> is(err, ErrFailedAll)
+//@   ensures [C10:sync-leaves-the-pinned-configuration-alone] s.log != nil && s.info != nil && s.scheme != nil && common.validPeriod(s.info.Period) && common.validGenesis(s.info.GenesisTime)
+
+// ---- C10: check and repair ------------------------------------------------------------------------------------------------
+// faultyRound(s, r): the beacon stored for round r cannot be read back or does not verify under the pinned chain info
+//@ pred faultyRound(s, r) := cannotRead(s.store, r) || !crypto.validSig(s.info.PublicKey, crypto.digestOf(s.scheme, r, prevOf(s.store, r)), sigOf(s.store, r))
+//@ pred checkBound(last, upTo) := ite(last.Round < upTo, last.Round, upTo)
+
+//@ paramfunc (*SyncManager).CheckPastBeacons.cb(r, u)
+//@   trusted progress callback of the control API: reports progress to the operator, touches no state of the sync manager or its store
+//@   modifies nothing
+//@ func (*SyncManager).CheckPastBeacons(s, ctx, upTo, cb) (res, err)
+//@   props C10
+//@   requires s.log != nil && s.info != nil && s.scheme != nil
+//@   modifies nothing
+//@   loop 0: invariant [C10:check-scan-position] 1 <= i && (i <= upTo || i == 1) && isnew(faultyBeacons) && last != nil && s.log != nil && s.info != nil && s.scheme != nil
+//@   loop 0: invariant [C10:every-reported-round-is-faulty] forall k int {faultyBeacons[k]} :: 0 <= k && k < len(faultyBeacons) ==> 1 <= faultyBeacons[k] && faultyBeacons[k] < i && faultyRound(s, faultyBeacons[k])
+//@   loop 0: invariant [C10:a-faulty-round-is-reported-in-its-own-iteration] i == 1 || (faultyRound(s, i - 1) ==> len(faultyBeacons) > 0 && faultyBeacons[len(faultyBeacons) - 1] == i - 1)
+//@   ensures [C10:check-reports-rounds-within-the-bound] err == nil ==> (forall k int {res[k]} :: 0 <= k && k < len(res) ==> 1 <= res[k] && res[k] <= checkBound(last, upTo))
+//@   ensures [C10:check-reports-only-faulty-rounds] err == nil ==> (forall k int {res[k]} :: 0 <= k && k < len(res) ==> faultyRound(s, res[k]))
+//@   ensures [C10:check-reports-the-last-round-of-the-bound-when-it-is-faulty] err == nil && checkBound(last, upTo) >= 1 && faultyRound(s, checkBound(last, upTo)) ==> len(res) > 0 && res[len(res) - 1] == checkBound(last, upTo)
+
+//@ pred syncConfigured(s) := s.log != nil && s.info != nil && s.scheme != nil && common.validPeriod(s.info.Period) && common.validGenesis(s.info.GenesisTime)
+
+//@ func (*SyncManager).ReSync(s, ctx, from, to, nodes) (err)
+//@   props C10
+//@   requires syncConfigured(s)
+//@   call Sync#0: assert [C10:repair-asks-for-exactly-the-requested-window] arg2.from == from && arg2.upTo == to && arg2.nodes == nodes
+//@   call Sync#1: assert [C10:the-retry-asks-for-exactly-the-requested-window] arg2.from == from && arg2.upTo == to && arg2.nodes == nodes
+//@   ensures [C10:repair-leaves-the-pinned-configuration-alone] syncConfigured(s)
+
+//@ paramfunc (*SyncManager).CorrectPastBeacons.cb(r, u)
+//@   trusted progress callback of the control API: reports progress to the operator, touches no state of the sync manager
+//@   modifies nothing
+
+//@ func (*SyncManager).CorrectPastBeacons(s, ctx, faultyBeacons, peers, cb) (err)
+//@   props C10
+//@   requires syncConfigured(s)
+//@   loop 0: invariant [C10:repair-keeps-the-pinned-configuration] syncConfigured(s)
+//@   call ReSync#0: assert [C10:repair-re-fetches-exactly-the-round-taken-from-the-report] arg2 == b && arg3 == b && arg4 == peers
+//@   ensures [C10:a-failed-repair-is-reported] err == nil && len(faultyBeacons) > 0 ==> len(errAcc) == 0
